@@ -64,7 +64,7 @@ class ExpLF:
 def flatten(v):
     out = []
     for x in v:
-        if isinstance(x, (list, tuple)):
+        if isinstance(x, list):
             out.extend(flatten(x))
         else:
             out.append(x)
